@@ -499,12 +499,17 @@ def run(chk):
         inventory_report(chk)
     except Exception as e:   # the scanner met a construct it cannot classify: the tie to the source is broken (the stale tables stay)
         chk.violation("the C10 inventory scan cannot read the current source: %r" % (e,), {"kind": "inventory", "error": repr(e)}, found=False)
+    import time
+    t0 = time.time()
+    timing = chk.cov.setdefault("timing_s", {})
     chk.prove()
+    timing["prove"] = round(time.time() - t0, 1)
     quick = chk.tier == "quick"
     K = 4 if quick else 32
     k = 4 if quick else 32
     bins = vlib.harness_build(("debug", "release"), bins=["determ"])
     real = vlib.customasm_build(("debug",))["debug"]
+    timing["build"] = round(time.time() - t0, 1)
     cases = corpus_cases() + generated_cases(chk)
     cases += option_variants(chk, cases)
     seen = set()
@@ -526,8 +531,11 @@ def run(chk):
     status = stream_inprocess(chk, cases, lambda c, mode, kk: c.line(mode, kk), bins, K, "programs-in-process",
                               lambda c: "%s %r (budget %d, static %d, matching %d)" % (c.corpus or c.tag, c.roots, c.budget, c.stat, c.matching),
                               lambda c: c.replay(), lambda c: c.line("V", 1))
+    timing["in_process"] = round(time.time() - t0, 1)
     stream_fresh(chk, cases, status, real, k)
+    timing["fresh"] = round(time.time() - t0, 1)
     stream_cli(chk, bins, real, K, k)
+    timing["cli"] = round(time.time() - t0, 1)
     for i in (0, len(cases) // 3, len(cases) // 2, len(cases) - 1):
         c = cases[i]
         chk.sample({"tag": c.tag, "corpus": c.corpus, "roots": c.roots, "options": [c.budget, c.stat, c.matching], "status": status[i],
